@@ -88,6 +88,15 @@ func (eng) Cases(seed uint64, tier string) []core.CaseDesc {
 		p := scenP{Mode: "workers", Max: mx, Min: mx + 1 + r.IntN(3), Warm: 0, Kill: 3, N: 5 + r.IntN(5), MinOverMax: true, Script: "withdraw"}
 		cs = append(cs, mk(fmt.Sprintf("min-over-max/%04d", i), "scen", seed*1000003+uint64(i)+700000, p))
 	}
+	// a forked worker that is killed and replaced before it reported, and reports late
+	nL := 2
+	if tier == "thorough" {
+		nL = 20
+	}
+	for i := 0; i < nL; i++ {
+		p := scenP{Mode: "workers", Max: 1, Min: 1, Warm: 0, Kill: 3, N: 0, Script: "latereport"}
+		cs = append(cs, mk(fmt.Sprintf("late-report/%04d", i), "scen", seed*1000003+uint64(i)+900000, p))
+	}
 	for i := 0; i < nA+nB; i++ {
 		r := gen.NewRand(seed*104729+uint64(i), 15)
 		p := scenP{Mode: "gated", Min: r.IntN(7), Max: r.IntN(7), Warm: r.IntN(7), Kill: 1 + r.IntN(3), N: 6 + r.IntN(14)}
@@ -148,6 +157,8 @@ type monitor struct {
 	keys       map[string]bool
 	errK       int
 	stop       atomic.Bool
+	// the late report of a removed worker has been let through
+	lateReport bool
 }
 
 func (m *monitor) violate(sig, what string) {
@@ -241,7 +252,11 @@ func (m *monitor) TransitionEnd(tx *am.Transition) {
 	// never more than Max tracked
 	if total > s.Max && total > m.maxTotal {
 		cls := "fork-at-max"
-		if m.forkAtMax == 0 {
+		if m.lateReport {
+			// nothing was in flight but the report of a worker that had been
+			// killed and removed
+			cls = "late-report-of-removed-worker"
+		} else if m.forkAtMax == 0 {
 			// every fork passed its gate below Max: the excess was in flight
 			cls = "forks-in-flight"
 			if m.mode == "prompt" {
@@ -356,6 +371,12 @@ type world struct {
 	workers map[string]*node.Worker // by any of their addresses
 	wlist   []*node.Worker
 	closed  atomic.Bool
+	// script "latereport": the first fork reports only after lateGate closes
+	script    string
+	forks     int
+	lateAddr  chan string
+	lateGate  chan struct{}
+	lateBegun atomic.Bool
 }
 
 type parkedFork struct {
@@ -385,7 +406,31 @@ func (w *world) testFork(addr string) error {
 			return errFork
 		}
 	}
-	// a real in-memory worker
+	if w.script == "latereport" {
+		w.mx.Lock()
+		w.forks++
+		first := w.forks == 1
+		w.mx.Unlock()
+		if first {
+			w.lateAddr <- addr
+			go func() {
+				select {
+				case <-w.lateGate:
+				case <-w.ctx.Done():
+					return
+				}
+				w.lateBegun.Store(true)
+				_ = w.startWorker(addr)
+			}()
+			// forked all right: the supervisor tracks it under its bootstrap address
+			return nil
+		}
+	}
+	return w.startWorker(addr)
+}
+
+// startWorker starts a real in-memory worker that reports to addr.
+func (w *world) startWorker(addr string) error {
 	wk, err := node.NewWorker(w.ctx, "c15", ssnode.WorkerSchema, ssW.Names(), nil)
 	if err != nil {
 		return err
@@ -480,7 +525,8 @@ func (e eng) Run(c core.CaseDesc, tier string) *core.CaseResult {
 	_ = json.Unmarshal(c.P, &p)
 	r := gen.NewRand(c.Seed, 15)
 	ctx, cancel := context.WithCancel(context.Background())
-	w := &world{ctx: ctx, cancel: cancel, r: r, mode: p.Mode, workers: map[string]*node.Worker{}}
+	w := &world{ctx: ctx, cancel: cancel, r: r, mode: p.Mode, workers: map[string]*node.Worker{}, script: p.Script,
+		lateAddr: make(chan string, 1), lateGate: make(chan struct{})}
 	sup, err := node.NewSupervisor(ctx, "c15", []string{"/nonexistent/worker"}, ssnode.WorkerSchema, nil)
 	if err != nil {
 		res.Inconclusive = "NewSupervisor: " + err.Error()
@@ -532,9 +578,51 @@ func (e eng) Run(c core.CaseDesc, tier string) *core.CaseResult {
 		sup.Stop()
 	}()
 
+	if p.Script == "latereport" {
+		// the bootstrap of the first fork has to outlive its replacement
+		sup.ConnTimeout = 30 * time.Second
+	}
 	sup.Start("localhost:0")
 	w.settle(2 * time.Second)
 	var log []string
+	if p.Script == "latereport" {
+		var addrA string
+		select {
+		case addrA = <-w.lateAddr:
+		case <-time.After(20 * time.Second):
+			res.Inconclusive = "the first fork was not requested"
+			return res
+		}
+		w.settle(time.Second)
+		// it never reported: killed and removed, a replacement fills the pool
+		sup.Mach.Add1(ssS.KillingWorker, am.Pass(&node.A{LocalAddr: addrA}))
+		w.settle(time.Second)
+		log = append(log, "kill-unreported-first-worker")
+		sup.Mach.Add1(ssS.ForkWorker, nil)
+		ok := false
+		for i := 0; i < 300; i++ {
+			if len(w.trackedAddrs()) == 1 && sup.Mach.Is1(ssS.PoolReady) && !slices.Contains(w.trackedAddrs(), addrA) {
+				ok = true
+				break
+			}
+			if i%50 == 10 {
+				sup.Mach.Add1(ssS.NormalizingPool, nil)
+			}
+			time.Sleep(20 * time.Millisecond)
+		}
+		if !ok {
+			res.Inconclusive = fmt.Sprintf("the replacement did not fill the pool (tracked %v)", w.trackedAddrs())
+			return res
+		}
+		log = append(log, "replacement-ready")
+		mon.mx.Lock()
+		mon.lateReport = true
+		mon.mx.Unlock()
+		close(w.lateGate)
+		log = append(log, "first-worker-reports-late")
+		w.settle(3 * time.Second)
+		res.Count("late_reports_of_removed_workers", 1)
+	}
 	for i := 0; i < p.N; i++ {
 		op := w.step(p)
 		log = append(log, op)
